@@ -121,6 +121,9 @@ def main(tier):
     run_shards(run, "c01", plan["shards"], timeout_s=600 if tier == "quick" else 7200)
     if run.counters.get("irvm_judged", 0) < 500 or run.counters.get("jit_judged", 0) < 100:
         run.inconclusive_because("too few kernels were produced and judged")
+    from .. import contracts_leg
+
+    contracts_leg.run(run, PID, tier)
     run.assumptions += [
         "refsem (expansion into signed products, exact Fraction arithmetic) is the meaning of the assignment",
         "inputs are handed over through taco_structure_to_cffi; values are dyadic so any association order is exact",
